@@ -123,9 +123,12 @@ class VersionObjectFetcher(object):
         subquery = (
             sa.select(sa.func.count()).select_from(alias.__table__)
             .where(
-                getattr(alias, tx_column_name(obj))
-                <
-                getattr(obj, tx_column_name(obj))
+                sa.and_(
+                    getattr(alias, tx_column_name(obj))
+                    <
+                    getattr(obj, tx_column_name(obj)),
+                    *parent_criteria(obj, alias)
+                )
             )
             .correlate(alias.__table__)
             .label('position')
